@@ -123,3 +123,33 @@ pub fn encode_points(dc: &Decaf, quick: bool) -> Vec<(Pt, u64)> {
         })
         .collect()
 }
+
+/// valid curve points whose encoder intermediate w = v*u_1 (the value fed to the first abs(),
+/// w^2 = (1 - y^2)/(a - d)) is a boundary class of limb-wise comparison / negation with q
+pub fn encode_points_by_w(dc: &Decaf) -> Vec<(Pt, u64)> {
+    let f = dc.f();
+    let (a, d) = (&dc.c.a, &dc.c.d);
+    let amd = f.sub(a, d);
+    let mut ws = crate::fields::cmp_family(&f.p, 32);
+    ws.extend(crate::fields::neg_family_n(&f.p, 32, 96));
+    ws.par_iter()
+        .filter(|w| **w < f.p && !w.is_zero())
+        .flat_map(|w| {
+            let mut out = vec![];
+            // y^2 = 1 - (a-d) w^2 ; x^2 = (y^2 - 1)/(1 + d y^2)
+            let v = f.sub(&BigUint::one(), &f.mul(&amd, &f.sqr(w)));
+            let den = f.add(&BigUint::one(), &f.mul(d, &v));
+            if den.is_zero() {
+                return out;
+            }
+            let x2 = f.div(&f.sub(&v, &BigUint::one()), &den);
+            if let (Some(y), Some(x)) = (f.sqrt(&v), f.sqrt(&x2)) {
+                let p = Pt { x, y };
+                if dc.valid(&p) {
+                    out.push((p, 0u64));
+                }
+            }
+            out
+        })
+        .collect()
+}
